@@ -70,6 +70,14 @@ def check_readouts(rec, ch, kind, rng, ctx, n_combos):
             ok_m = (not isinstance(mg, Raised)) and np.array_equal(np.sort(np.asarray(mg.sample, float).ravel()), np.sort(full_s[idx, i]))
             rec.check(ok_m, "get_marginal", lambda: f"{kind}: get_marginal({i}, burn={burn}, thin={thin}) was not built from the documented selection", cctx)
 
+        if 30 <= k <= 200 and np.unique(full_s[idx, 0]).size >= 20 and rng.random() < 0.08:
+            i = int(rng.integers(d))
+            mg = guarded(ch.get_marginal, i, burn=burn, thin=thin, unimodal=True)
+            rec.count("post:get_marginal_unimodal")
+            ok_m = (not isinstance(mg, Raised)) and np.array_equal(np.sort(np.asarray(mg.sample, float).ravel()), np.sort(full_s[idx, i]))
+            rec.check(ok_m, "get_marginal", lambda: f"{kind}: get_marginal({i}, burn={burn}, thin={thin}, unimodal=True) was not built from the documented selection "
+                      f"({np.asarray(mg.sample).size if not isinstance(mg, Raised) else mg} values, expected {k})", cctx)
+
         # highest-density read-out
         if L - burn >= 1:
             frac = float(rng.choice([0.95, 0.5, rng.uniform(0.05, 0.999), 0.999, 0.1]))
